@@ -103,13 +103,21 @@ def _routing_by_scenario(prog, rep, solve, lp_entries, nlp_entries):
                     if isinstance(tg, ast.Name):
                         state["env"][tg.id] = value(st.value, state["env"], lin)
 
-            ex = Explorer(atom_truth, on_stmt, max_paths=2048)
+            def on_branch(t, v, state):
+                state["forks"].append(src(t)[:50])
+
+            ex = Explorer(atom_truth, on_stmt, on_branch, max_paths=2048)
             try:
-                paths = ex.explore(solve.node.body, {"env": {"method": lit}})
+                paths = ex.explore(solve.node.body, {"env": {"method": lit}, "forks": []})
             except TooManyPaths:
                 rep.undecided(f"Problem.solve: too many paths for method={lit!r}")
                 continue
             outcomes = set()
+            # a routing decision that hinges on a test the walk could not evaluate is not decided here
+            guessed = sorted({fk for state, term in paths if term != "raise" for fk in state["forks"] if "method" in fk})
+            if guessed:
+                rep.undecided(f"Problem.solve[{lit}]: the route depends on `{guessed[0]}`, which the walk cannot evaluate")
+                continue
             for state, term in paths:
                 if term == "raise":
                     continue
@@ -153,8 +161,14 @@ def _routing_by_scenario(prog, rep, solve, lp_entries, nlp_entries):
 
 def _module_literal(prog, module, name):
     for st in module.tree.body:
-        if isinstance(st, ast.Assign) and len(st.targets) == 1 and isinstance(st.targets[0], ast.Name) and st.targets[0].id == name and isinstance(st.value, (ast.Tuple, ast.List, ast.Set)) and all(isinstance(x, ast.Constant) for x in st.value.elts):
-            return [x.value for x in st.value.elts]
+        tg = st.targets[0] if isinstance(st, ast.Assign) and len(st.targets) == 1 else st.target if isinstance(st, ast.AnnAssign) else None
+        if not (isinstance(tg, ast.Name) and tg.id == name) or getattr(st, "value", None) is None:
+            continue
+        v = st.value
+        if isinstance(v, ast.Call) and dotted(v.func) in ("frozenset", "set", "tuple", "list") and len(v.args) == 1 and not v.keywords:
+            v = v.args[0]
+        if isinstance(v, (ast.Tuple, ast.List, ast.Set)) and all(isinstance(x, ast.Constant) for x in v.elts):
+            return [x.value for x in v.elts]
     return None
 
 
